@@ -184,7 +184,11 @@ pub fn gen_rsetter(rng: &mut Rng, is_img: bool, raster_safe: bool, allow_panicky
         4 => RSetter::ShapeColor(gen_shape(rng, allow_panicky), gen_color(rng, raster_safe)),
         5 => RSetter::Image(if raster_safe {
             if is_img && FILE_IMAGES.with(|f| f.get()) && rng.chance(2, 5) {
-                ImageSpec::File(rng.below(3) as u8)
+                if rng.chance(1, 3) {
+                    ImageSpec::RelFile(rng.below(3) as u8)
+                } else {
+                    ImageSpec::File(rng.below(3) as u8)
+                }
             } else if rng.chance(1, 2) {
                 ImageSpec::Png
             } else {
